@@ -38,6 +38,17 @@ def check(run):
     cli = dmnfam.count(traces, lambda ln: '"ev":"CliReset"' in ln or '"ev":"CliInit"' in ln)
     if restarts < 10:
         raise vlib.Infra('vacuous: only %d restarts on an existing database' % restarts)
+    # growth beyond the listed property (never a verdict): the direct fan commands of the command line against Cli.tla
+    from props import recfam
+    import os
+    run.model_check('MC_Cli', vlib.cfg(invariants=['G_ReadOnly', 'G_WriteLocal'], properties=['G_KindNeverChanges']), 'mc_cli', timeout=300)
+    ctr = run.drive('TestDriveCli', 2, lambda i: dict(VERIF_SEED=run.seed * 13 + i, VERIF_N=run.pick(30, 300)), 'cli', timeout=1800)
+    for t in ctr:
+        rc, out = run.tlc('Rec_Cli', recfam.rec_cfg('Rec_Cli', ['G_CliConforms']), 'rec_' + os.path.basename(t), workers=1, env=dict(VERIF_TRACE=t))
+        if vlib.parse_violation(out) or 'TRACE-DONE' not in out:
+            run.cov['drift'].append(dict(trace=os.path.basename(t), note='a fan command of the CLI differs from Cli.tla'))
+            vlib.log('[DRIFT] a fan command of the CLI differs from Cli.tla (%s)' % os.path.basename(t))
+    run.cov['cli_commands'] = recfam.count_lines(ctr)
     return run.finish('model_checking',
                       'Daemon.tla: all sequences of start / stop / fan reset / fan init (depth bounded by the number of starts) for '
                       'hwmon+file fans with and without a configured pwmMap; real controller.Run (bubble) started repeatedly on one bbolt '
